@@ -5,7 +5,7 @@
    library-generated names: decoding the encoding gives the same names in the same listing
    order, the same orders and faces, and a well-formed complex. *)
 From Coq Require Import String ZArith Bool Arith List.
-From SV Require Import Names Rep Complex Homology Filtration Gen World Small Sweeps.
+From SV Require Import Names NamesFacts Rep Complex Homology Filtration Gen World Small Sweeps Shapes JsonProofs.
 
 Theorem C17_roundtrip_upto4_partial : forall c, In c complexes4 ->
   chk_json (build_named 1 c) && chk_json (build c) = true.
@@ -16,3 +16,18 @@ Print Assumptions C17_roundtrip_upto4_partial.
 Theorem C17_listing_order : forall hp v, map j_id (encode_view hp v) = map fst v.
 Proof. intros hp v. unfold encode_view. rewrite map_map. reflexivity. Qed.
 Print Assumptions C17_listing_order.
+
+(* EVERY COMPLEX (structure level): decoding the encoding of a complex, when the decoder accepts
+   it, yields a complex with exactly the source's names, each with its order (|faces| - 1), exactly
+   its faces, and an attribute dictionary of its own holding the source dictionary's contents *)
+Theorem C17_roundtrip :
+  forall hp0 src hp uid hp' r', uid <> 0 ->
+  decode hp (empty_rep uid) (encode_view hp0 (view_of src)) = (hp', r', Ok tt) ->
+  sinv r' /\
+  (forall s, containsSimplex r' s = memn s (simplices src false)) /\
+  (forall s, In s (simplices src false) ->
+     orderOf r' s = Ok (length (faces src s) - 1) /\ (forall t, In t (faces r' s) <-> In t (faces src s)) /\
+     exists h', assoc s (r_attr r') = Some h' /\ fst h' = uid /\
+       heap_get hp' h' = heap_get hp0 (match assoc s (r_attr src) with Some h => h | None => (0, 0) end)).
+Proof. exact json_roundtrip. Qed.
+Print Assumptions C17_roundtrip.
